@@ -140,6 +140,22 @@ class GridRule:
                     and (e.func.id in f.params or any(
                         isinstance(x, ast.Name) and x.id == e.func.id and isinstance(x.ctx, ast.Store) for x in ast.walk(f.node))):
                 raise AnalysisError(f"{f.loc(e)}: `{src(e)[:50]}` calls the local callable `{e.func.id}`; what it returns (a grid point or not) cannot be read")
+            # value-preserving conversions of a Grid value
+            if isinstance(e.func, ast.Attribute) and e.func.attr == "astype" and e.args and src(e.args[0]) in ("np.float64", "float", "numpy.float64", "'float64'") \
+                    and all(k.arg in ("copy", "order") for k in e.keywords):
+                return self.expr_is_grid(f, e.func.value, at, depth + 1)
+            if fn in ("np.asarray", "np.array", "np.ascontiguousarray", "numpy.asarray", "numpy.array") and len(e.args) == 1 and all(
+                    k.arg == "copy" or (k.arg == "dtype" and src(k.value) in ("np.float64", "float", "numpy.float64")) for k in e.keywords) and isinstance(e.args[0], ast.Name):
+                return self.expr_is_grid(f, e.args[0], at, depth + 1)
+            # columns drawn one per grid column and put side by side: np.stack(cols, axis=1) / np.column_stack(cols)
+            if (fn in ("np.stack", "numpy.stack") and len(e.args) == 1 and src(kwarg(e, "axis") or ast.Constant(value=0)) in ("1", "-1")) or (fn in ("np.column_stack", "numpy.column_stack") and len(e.args) == 1):
+                cols = e.args[0]
+                if isinstance(cols, ast.Name):
+                    from ..poly import single_assignment_env
+                    cols = single_assignment_env(f.node).get(cols.id, cols)
+                ok_c, why_c = self._uniform_column_list(f, cols)
+                if ok_c is not None:
+                    return ok_c, why_c
             return False, f"`{src(e)[:70]}` is a computed value (not snapped onto the grid)"
         if isinstance(e, ast.Subscript):
             # row selection / permutation / prefix of a Grid array is Grid (whole rows or whole-array slices)
@@ -277,6 +293,33 @@ class GridRule:
             return False, "column loop can skip columns"
         return True, "uniform column"
 
+    def _uniform_column_list(self, f: FuncInfo, cols: ast.expr) -> tuple[bool | None, str]:
+        """`[<gen>.choice(col, size=...) for col in <ss>.param_grid]` (any header that binds col to param_grid[_I_] over the whole grid): one column per grid column,
+        in grid order.  (None, ..): not that shape."""
+        if not (isinstance(cols, ast.ListComp) and len(cols.generators) == 1 and not cols.generators[0].ifs):
+            return None, ""
+        from ..util import IDX, _substitute, kwarg as _kw, loop_binding
+        gen = cols.generators[0]
+        try:
+            benv, counts = loop_binding(gen.target, gen.iter)
+        except AnalysisError:
+            return None, ""
+
+        def canon_txt(e_: ast.expr) -> str:
+            for nm, ve in benv.items():
+                e_ = _substitute(e_, nm, ve)
+            return ast.unparse(e_).replace(" ", "")
+        grid_of = None
+        for s_ in self.search_space_params(f):
+            if any(canon_txt(c_) in (f"len({s_}.param_grid)", f"{s_}.dims") for c_ in counts):
+                grid_of = s_
+        v = cols.elt
+        first = (v.args[0] if v.args else _kw(v, "a")) if isinstance(v, ast.Call) else None
+        if grid_of is None or not (isinstance(v, ast.Call) and isinstance(v.func, ast.Attribute) and v.func.attr == "choice" and first is not None
+                                   and canon_txt(first) == f"{grid_of}.param_grid[{IDX}]"):
+            return None, ""
+        return True, "one column drawn from each grid column, in grid order"
+
     def _uniform_columns(self, f: FuncInfo, name: str) -> tuple[bool, str]:
         stores = [s for s in walk_scope(f.node) if isinstance(s, ast.Assign) and isinstance(s.targets[0], ast.Subscript)
                   and isinstance(s.targets[0].value, ast.Name) and s.targets[0].value.id == name]
@@ -384,7 +427,16 @@ def r3_rows(ctx: Context, base: ClassInfo) -> None:
     # uniform sampler: rows x dims allocation
     ru = ctx.func("black_it.samplers.random_uniform:RandomUniformSampler.sample_batch")
     allocs = [s.value for s in walk_scope(ru.node) if isinstance(s, (ast.Assign, ast.AnnAssign)) and s.value is not None and _is_fresh_alloc(s.value)]
-    ok = bool(allocs) and src(allocs[0].args[0] if allocs[0].args else kwarg(allocs[0], "shape")) in ("(batch_size, search_space.dims)", "(batch_size, len(search_space.param_grid))")
+    if not allocs:
+        # no preallocated array: the batch is assembled from per-column draws - each `choice(col, size=(batch_size,))` / `size=batch_size`, one per grid column (R1 reads which)
+        draws = [c_ for c_ in calls_in(ru.node) if isinstance(c_.func, ast.Attribute) and c_.func.attr == "choice"]
+        sizes = {src(kwarg(c_, "size", 1)).replace(" ", "") if kwarg(c_, "size", 1) is not None else "?" for c_ in draws}
+        if draws and sizes <= {"(batch_size,)", "batch_size"}:
+            ctx.ok("R3.shape", "RandomUniformSampler.sample_batch:alloc", "every grid column contributes batch_size draws")
+            allocs = None
+        else:
+            raise AnalysisError(f"{ru.loc(ru.node)}: the uniform batch is neither preallocated nor assembled from per-column draws of batch_size values; its shape cannot be read")
+    ok = allocs is None or src(allocs[0].args[0] if allocs[0].args else kwarg(allocs[0], "shape")) in ("(batch_size, search_space.dims)", "(batch_size, len(search_space.param_grid))")
     ctx.check(ok, "R3.shape", "RandomUniformSampler.sample_batch:alloc", "the uniform batch is allocated as (batch_size, dims)",
               f"uniform batch allocated as `{src(allocs[0]) if allocs else '?'}`", ru, allocs[0] if allocs else ru.node)
 
